@@ -259,6 +259,32 @@ P_C11_ImportFaithful(i) ==
 P_C12_ImportOutcome(i) ==
   Trace[i].op.k = "import" => Trace[i].res.ok = X(i).ok /\ Trace[i].res.err = X(i).err
 
+\* C34: async log blocks.  Trace[i].blk: ledger (HASH_LOGS = ASYNC) -> rows of logs_blocks in id order, each
+\* with n, the number of logs committed in its range, and ok, whether its stored hash equals the documented
+\* digest re-derived over those logs, both taken when the line was observed.  AsyncBlocks.tla is the design.
+Blk(i) == Trace[i].blk
+LogIdsIn(i, lg, lo, hi) == {j \in DOMAIN Raw(i)[lg].logs : lo < Raw(i)[lg].logs[j].id /\ Raw(i)[lg].logs[j].id <= hi}
+I_C34_BlockChain(i) ==
+  \A lg \in DOMAIN Blk(i) :
+     LET B == Blk(i)[lg]
+     IN \A k \in DOMAIN B : /\ Raw(i)[lg].flags.async   \* only ledgers with HASH_LOGS = ASYNC get blocks
+                            /\ B[k].from = (IF k = 1 THEN 0 ELSE B[k - 1].to)
+                            /\ B[k].prev = (IF k = 1 THEN 0 ELSE B[k - 1].id)
+                            /\ B[k].from < B[k].to
+                            /\ B[k].n = Cardinality(LogIdsIn(i, lg, B[k].from, B[k].to))
+\* no log skipped: the hash of every block covers every log committed in its range (AsyncBlocks!DigestCovers)
+I_C34_BlockDigest(i) == \A lg \in DOMAIN Blk(i) : \A k \in DOMAIN Blk(i)[lg] : Blk(i)[lg][k].ok
+\* once the builder has run to completion with no request in flight, the ranges partition the committed log ids
+P_C34_Quiescent(i) ==
+  Trace[i].quiet =>
+    \A lg \in {g \in DOMAIN Blk(i) : Raw(i)[g].flags.async} :
+       LET B == Blk(i)[lg]
+           n == Len(Raw(i)[lg].logs)
+       IN /\ (n = 0 => Len(B) = 0)
+          /\ (n > 0 => /\ Len(B) > 0
+                       /\ LogIdsIn(i, lg, 0, B[Len(B)].to) = 1..n
+                       /\ \A k \in DOMAIN B : B[k].n >= 1)
+
 \* a reset line must show pristine ledgers
 P_ResetPristine(i) == \A g \in Ledgers(i) : Raw(i)[g].txs = <<>> /\ Raw(i)[g].logs = <<>>
 
@@ -321,6 +347,8 @@ PC_C13_Serializable(i) == Trace[i].prop = "C13" => Serializable(i)
 PC_C14_Serializable(i) == Trace[i].prop = "C14" => Serializable(i)
 PC_C15_Serializable(i) == Trace[i].prop = "C15" => Serializable(i)
 PC_C16_Serializable(i) == Trace[i].prop = "C16" => Serializable(i)
+\* a builder run racing with writers is invisible to them (Effect: "blocks" changes nothing)
+PC_C34_Serializable(i) == Trace[i].prop = "C34" => Serializable(i)
 
 \* C16: among committed writes a later commit never receives a smaller transaction id / log id
 NewTxOps(i) == {j \in 1..NOps(i) : Trace[i].cseq[j] > 0 /\ Trace[i].ops[j].k \in {"create", "revert"}}
@@ -350,6 +378,7 @@ StepC_C13_Serializable == [][IsConc(l') => PC_C13_Serializable(l')]_vars
 StepC_C14_Serializable == [][IsConc(l') => PC_C14_Serializable(l')]_vars
 StepC_C15_Serializable == [][IsConc(l') => PC_C15_Serializable(l')]_vars
 StepC_C16_Serializable == [][IsConc(l') => PC_C16_Serializable(l')]_vars
+StepC_C34_Serializable == [][IsConc(l') => PC_C34_Serializable(l')]_vars
 StepC_C16_TxIdCommitOrder == [][IsConc(l') => PC_C16_TxIdCommitOrder(l')]_vars
 StepC_C16_LogIdCommitOrder == [][IsConc(l') => PC_C16_LogIdCommitOrder(l')]_vars
 StepC_C09_LinearChain == [][IsConc(l') => PC_C09_LinearChain(l')]_vars
@@ -367,6 +396,9 @@ Inv_C18_Accounts == l >= 1 => I_C18_Accounts(l)
 Inv_C18_RevertFirstUsage == l >= 1 => I_C18_RevertFirstUsage(l)
 Inv_C28_WellFormed == l >= 1 => I_C28_WellFormed(l)
 Inv_C35_Hashes == l >= 1 => I_C35_Hashes(l)
+Inv_C34_BlockChain == l >= 1 => I_C34_BlockChain(l)
+Inv_C34_BlockDigest == l >= 1 => I_C34_BlockDigest(l)
+Step_C34_Quiescent == [][~IsReset(l') => P_C34_Quiescent(l')]_vars
 
 Step_C25_Funds == [][IsSeq(l') =>P_C25_Funds(l')]_vars
 Step_C14_RefOutcome == [][IsSeq(l') =>P_C14_RefOutcome(l')]_vars
@@ -407,7 +439,10 @@ StateChecks(i) ==
      <<"Inv_C18_Accounts", I_C18_Accounts(i)>>,
      <<"Inv_C18_RevertFirstUsage", I_C18_RevertFirstUsage(i)>>,
      <<"Inv_C28_WellFormed", I_C28_WellFormed(i)>>,
-     <<"Inv_C35_Hashes", I_C35_Hashes(i)>> >>
+     <<"Inv_C35_Hashes", I_C35_Hashes(i)>>,
+     <<"Inv_C34_BlockChain", I_C34_BlockChain(i)>>,
+     <<"Inv_C34_BlockDigest", I_C34_BlockDigest(i)>>,
+     <<"Step_C34_Quiescent", IsReset(i) \/ P_C34_Quiescent(i)>> >>
 
 StepChecks(i) ==
   << <<"Step_C25_Funds", P_C25_Funds(i)>>,
@@ -435,6 +470,7 @@ ConcChecks(i) ==
      <<"StepC_C14_Serializable", PC_C14_Serializable(i)>>,
      <<"StepC_C15_Serializable", PC_C15_Serializable(i)>>,
      <<"StepC_C16_Serializable", PC_C16_Serializable(i)>>,
+     <<"StepC_C34_Serializable", PC_C34_Serializable(i)>>,
      <<"StepC_C16_TxIdCommitOrder", PC_C16_TxIdCommitOrder(i)>>,
      <<"StepC_C16_LogIdCommitOrder", PC_C16_LogIdCommitOrder(i)>>,
      <<"StepC_C09_LinearChain", PC_C09_LinearChain(i)>> >>
